@@ -52,11 +52,16 @@ class FakeDSSP:
         with open(path) as handle:
             lines = handle.read().splitlines()
         residues = []
+        names = []
         for line in lines:
             if line.startswith(('ATOM', 'HETATM')):
                 key = (line[21], line[22:26].strip(), line[26], line[17:20])
                 if not residues or residues[-1] != key:
                     residues.append(key)
+                    names.append(set())
+                names[-1].add(line[12:16].strip())
+        # like the real program, the peer does not report residues whose backbone is incomplete in the file it was given
+        complete = [all(n in have for n in ('N', 'CA', 'C', 'O')) for have in names]
         letters = [self.rng.choice(LETTERS) for _ in residues]
         mode = self.spec.get('mode')
         if mode == 'helix':
@@ -70,12 +75,17 @@ class FakeDSSP:
                      '  %3d  1  0  0  0 TOTAL NUMBER OF RESIDUES, NUMBER OF CHAINS                                            .' % len(residues),
                      '  #  RESIDUE AA STRUCTURE BP1 BP2  ACC     N-H-->O    O-->H-N    N-H-->O    O-->H-N    TCO  KAPPA ALPHA  PHI   PSI    X-CA   Y-CA   Z-CA']
         body = []
-        for i, (res, letter) in enumerate(zip(residues, letters), 1):
+        for i, (res, letter, ok) in enumerate(zip(residues, letters, complete), 1):
+            if not ok:
+                continue
             chain, resid, icode, resname = res
             body.append('%5d %4s%1s%1s %1s  %1s              0   0  100      0, 0.0     0, 0.0     0, 0.0     0, 0.0   0.000 360.0 360.0 360.0 360.0    0.0    0.0    0.0'
                         % (i, resid[-4:], icode, chain, 'A', letter))
         fault = self.fault if (self.fault and this_call == self.fault_call) else None
-        delivered = list(letters)
+        delivered = [l for l, ok in zip(letters, complete) if ok]
+        if not all(complete):
+            stats.faults['peer:incomplete-backbone'] += 1
+            call['omitted'] = complete.count(False)
         returncode = 0
         stderr = ''
         if fault:
@@ -131,7 +141,7 @@ class FakeDSSP:
                     complete = False
             delivered = got if complete else None
         call['delivered'] = delivered
-        call['fault'] = fault
+        call['fault'] = fault or (['incomplete-backbone'] if not all(complete) else None)
         if returncode:
             return Completed(returncode, '' if text_mode else b'', stderr if text_mode else stderr.encode())
         return Completed(0, text if text_mode else text.encode(), '' if text_mode else b'')
